@@ -21,6 +21,8 @@ MUTS.append(("S5 seeded C09-d: resolve_field skips unwrap_value for the default 
 MUTS.append(("S6 seeded C09-e: _copy_error uses copy.copy (re-calls the constructor)", None, "/verif/seeded/C09-e/patch.diff", None, ["C09", "C08"]))
 MUTS.append(("S7 seeded C08-e: AsyncIORuntime.wrap_callable goes through self.submit(func, ...)", None, "/verif/seeded/C08-e/patch.diff", None, ["C08"]))
 MUTS.append(("R1 revert of 60b475c (list item completion failure waits for started items)", None, "-R:/verif/fixes/C09-01-list-item-failure-waits-for-started-items.patch", None, ["C09", "C08"]))
+MUTS.append(("S8 seeded C08-f: argument_values cached by AST node only", None, "/verif/seeded/C08-f/patch.diff", None, ["C08"]))
+MUTS.append(("S9 seeded C09-f: execute_fields_serially loop testing unwrap_value(value) is value", None, "/verif/seeded/C09-f/patch.diff", None, ["C09", "C08"]))
 MUTS.append(("S2 seeded C09-a: execute() dispatches on root_type identity", None, "/verif/seeded/C09-a/patch.diff", None, ["C09"]))
 only = sys.argv[1:]
 env = dict(os.environ, PYGQL_REPO=WT)
